@@ -29,8 +29,18 @@ STD_ENUMS = {
 }
 
 
+_LS = {}
+
+
 def last_seg(ty):
     """impls::memory::MemoryFS<T> -> MemoryFS"""
+    r = _LS.get(ty)
+    if r is None:
+        r = _LS[ty] = _last_seg_uncached(ty)
+    return r
+
+
+def _last_seg_uncached(ty):
     ty = strip_generics(ty.strip())
     ty = re.sub(r"^&(?:'\w+ )?(?:mut )?", '', ty)
     return ty.split('::')[-1]
@@ -676,16 +686,13 @@ class Exec:
         if k == 'discriminant':
             return self.discriminant(self.loc(fr, rv[1]).get())
         if k == 'variant':
-            head = rv[1]
-            hs = strip_generics(head)
-            parts = hs.split('::')
-            return Adt(parts[-2] if len(parts) > 1 else parts[-1], parts[-1], [self.operand(fr, x) for x in rv[2]])
+            return Adt(rv[3], rv[4], [self.operand(fr, x) for x in rv[2]])
         if k == 'struct':
             name = rv[1]
             if name.startswith('{'):
                 a = Adt(name, None, [self.operand(fr, op) for _, op in rv[2]])
                 return a
-            key = last_seg(name)
+            key = rv[3]
             if key not in self.prog.struct_fields:
                 self.prog.struct_fields[key] = [fn_ for fn_, _ in rv[2]]
             return Adt(key, None, [self.operand(fr, op) for _, op in rv[2]])
@@ -885,7 +892,50 @@ class Exec:
     _GENERIC_SELF = re.compile(r'^(dyn .*|Self|[A-Z]|impl .*)$')
 
     def resolve(self, callee, args):
-        """-> Fn or None (model needed)"""
+        """-> Fn or None (model needed). Results are cached per callee string (and per runtime
+        receiver type for dyn/generic receivers)"""
+        cache = self.prog.__dict__.setdefault('_rcache', {})
+        ent = cache.get(callee)
+        if ent is None:
+            ent = cache[callee] = self._describe(callee)
+        kind = ent[0]
+        if kind == 'static':
+            return ent[1]
+        if kind == 'dyn':
+            if not args:
+                return None
+            rt = self.runtime_type(args[0])
+            sub = ent[2]
+            if rt in sub:
+                return sub[rt]
+            f = sub[rt] = self._lookup_trait(rt, ent[1][0], ent[1][1], ent[1][2])
+            return f
+        if kind == 'ambiguous':
+            if args:
+                rt = self.runtime_type(args[0])
+                cc = [x for x in ent[1] if x.impl_type == rt]
+                if len(cc) == 1:
+                    return cc[0]
+            raise Unmodelled('ambiguous call %s' % callee)
+        return None
+
+    def _lookup_trait(self, tyseg, tfull, tseg, meth):
+        prog = self.prog
+        f = prog.by_trait_impl.get((tyseg, tfull, meth))
+        if f is None and tfull == tseg:
+            f = prog.by_trait_impl.get((tyseg, tseg, meth))
+        if f is not None:
+            return f
+        if (tyseg, meth) in prog.by_type_method and self._crate_type(tyseg):
+            c = [x for x in prog.by_type_method[(tyseg, meth)] if x.impl_trait in (None, tseg, tfull)]
+            if len(c) == 1:
+                return c[0]
+        f = prog.defaults.get((tseg, meth))
+        if f is not None and self._crate_type(tyseg):
+            return f
+        return None
+
+    def _describe(self, callee):
         prog = self.prog
         if callee.startswith('<'):
             # <T as Trait<..>>::method::<..>
@@ -899,8 +949,7 @@ class Exec:
                         break
             inner, rest = callee[1:i], callee[i + 1:]
             if ' as ' not in inner:
-                return None
-            # split at top-level ' as '
+                return ('static', None)
             dd = 0
             split = None
             for j in range(len(inner)):
@@ -912,57 +961,36 @@ class Exec:
                 elif dd == 0 and inner.startswith(' as ', j):
                     split = j
             if split is None:
-                return None
+                return ('static', None)
             ty, trait = inner[:split].strip(), inner[split + 4:].strip()
             meth = strip_generics(rest.lstrip(':'))
             tfull = norm_trait(trait)
             tseg = tfull.split('<')[0]
             if ty.startswith('{closure@') or ty.startswith('{coroutine@'):
-                return None          # handled by closure call model
-            tyseg = last_seg(ty)
+                return ('static', None)
             if self._GENERIC_SELF.match(ty.strip()) or ty.startswith('&dyn') or ty.startswith('dyn'):
-                if not args:
-                    return None
-                tyseg = self.runtime_type(args[0])
-            f = prog.by_trait_impl.get((tyseg, tfull, meth))
-            if f is None and tfull == tseg:
-                f = prog.by_trait_impl.get((tyseg, tseg, meth))
-            if f is not None:
-                return f
-            if (tyseg, meth) in prog.by_type_method and self._crate_type(tyseg):
-                c = [x for x in prog.by_type_method[(tyseg, meth)] if x.impl_trait in (None, tseg, tfull)]
-                if len(c) == 1:
-                    return c[0]
-            f = prog.defaults.get((tseg, meth))
-            if f is not None and self._crate_type(tyseg):
-                return f
-            return None
+                return ('dyn', (tfull, tseg, meth), {})
+            return ('static', self._lookup_trait(last_seg(ty), tfull, tseg, meth))
         name = strip_generics(callee)
         if name in prog.free:
-            return prog.free[name]
+            return ('static', prog.free[name])
         parts = name.split('::')
         if len(parts) >= 2:
             c = prog.by_type_method.get((parts[-2], parts[-1]))
             if c:
                 inh = [x for x in c if x.impl_trait is None]
                 if len(inh) == 1:
-                    return inh[0]
+                    return ('static', inh[0])
                 if len(c) == 1:
-                    return c[0]
-                if args:
-                    rt = self.runtime_type(args[0])
-                    cc = [x for x in c if x.impl_type == rt]
-                    if len(cc) == 1:
-                        return cc[0]
-                raise Unmodelled('ambiguous call %s' % callee)
+                    return ('static', c[0])
+                return ('ambiguous', c)
             f = prog.defaults.get((parts[-2], parts[-1]))
             if f is not None:
-                return f
-            # closure bodies called directly
+                return ('static', f)
             if '{closure#' in parts[-1]:
                 for fs in prog.fns.get(callee, []):
-                    return fs
-        return None
+                    return ('static', fs)
+        return ('static', None)
 
     def _crate_type(self, tyseg):
         if tyseg in self.prog.struct_fields:
